@@ -1,5 +1,5 @@
 CONSTANTS MaxChar = 1  WordLen = 1  Full = FALSE
 INIT InitC
 NEXT NextC
-INVARIANTS Wf NullOk Involution ClassUniform
+INVARIANTS Wf NullOk Involution ClassUniform StartOk
 CHECK_DEADLOCK FALSE
